@@ -258,7 +258,7 @@ struct Runner {
             }
             // an accept whose attribute map carries a TCP value XCM admits and the kernel refuses
             // (keepalive count above 127): the accept fails after the connection was taken from the queue
-            if (!s && !blk && (op.x & 4) && sv.tp >= 2) {
+            if (!s && !blk && (op.x & 4) && sv.tp >= 2 && sv.tp != 4) { // (utls may hand out a UX connection: no TCP options there)
                 struct xcm_attr_map *am = xcm_attr_map_create();
                 xcm_attr_map_add_int64(am, "tcp.keepalive_count", 200);
                 for (int i = 0; i < 60; i++) {
